@@ -364,7 +364,7 @@ func (e *Engine) lemmaObligations() []*Obligation {
 			e.specError("<lemma>", c, err)
 			continue
 		}
-		out = append(out, &Obligation{ID: "lemma:" + c.Label, Fn: "<lemma>", Kind: "lemma", Label: c.Label, Props: c.Props, Goal: t, PC: tTrue(), ctx: dummy, Text: c.Text})
+		out = append(out, &Obligation{ID: "lemma:" + c.Label, Fn: "<lemma>", Kind: "lemma", Label: c.Label, Props: c.Props, Goal: t, PC: tTrue(), ctx: dummy, nHyps: len(dummy.hyps), Text: c.Text})
 	}
 	return out
 }
